@@ -1097,7 +1097,7 @@ func TestSequences(t *testing.T) {
 		}
 	}()
 	excludeKnown := evid.KnownOpen(findingCreatTrunc)
-	evid.Check(t, "sequences", evid.Scale(12000, 320000), func(t *rapid.T) {
+	evid.Check(t, "sequences", evid.Scale(24000, 3200000), func(t *rapid.T) {
 		c := caseT{Mount: rapid.SampledFrom(mountKinds).Draw(t, "mount"), Engine: rapid.SampledFrom(wz.Engines).Draw(t, "engine")}
 		n := rapid.IntRange(1, 15).Draw(t, "nsteps")
 		for i := 0; i < n; i++ {
